@@ -7,6 +7,7 @@ static EMU_ERR: AtomicBool = AtomicBool::new(false);
 
 fn child_prelude() {
     unsafe {
+        libc::alarm(20); // never outlive a stuck probe
         // fresh, non-orphaned process group (stop signals are discarded in orphaned groups)
         libc::setpgid(0, 0);
         let lim = libc::rlimit { rlim_cur: 0, rlim_max: 0 };
